@@ -1,6 +1,6 @@
 SPECIFICATION Spec
 CONSTANTS
-  MaxMsgs = 4
+  MaxMsgs = 5
   DevBufferedRelease = FALSE
 CONSTRAINT Bound
 INVARIANTS OnlyOwnersSignals AllOwnersSignals TrackedIsOwner
